@@ -324,13 +324,31 @@ pub fn run(seed: u64, n: usize, out: &mut dyn Write) {
                             None => "costpanic".to_string(),
                         };
                         // (the image bytes of a bigram dictionary depend on hash-map iteration order: compare meaning)
-                        if let Some(Ok(dl)) = &lib_small {
-                            if crate::tok::conn_dump(dl).map(|c| format!("ok {c}")) != Some(obs.clone()) {
-                                diffs.push("compile-bigram-costs".to_string());
+                        // A dual connector whose pre-summed part leaves 16 bits saturates, and WHICH templates are
+                        // pre-summed depends on hash-map iteration order: such dictionaries are not reproducible
+                        // (C07's caveat) and are left out; they are recognised by raw != dual in the library.
+                        let saturating = dual && {
+                            let raw = guarded(|| {
+                                SystemDictionaryBuilder::from_readers_with_bigram_info(
+                                    &g.lex[..], &g.right[..], &g.left[..], &g.cost_raw[..], s.chardef.as_bytes(), &g.unk[..], false,
+                                )
+                                .ok()
+                            })
+                            .flatten();
+                            match (&raw, &lib_small) {
+                                (Some(r), Some(Ok(dl))) => crate::tok::conn_dump(r) != crate::tok::conn_dump(dl),
+                                _ => true,
                             }
+                        };
+                        if !saturating {
+                            if let Some(Ok(dl)) = &lib_small {
+                                if crate::tok::conn_dump(dl).map(|c| format!("ok {c}")) != Some(obs.clone()) {
+                                    diffs.push("compile-bigram-costs".to_string());
+                                }
+                            }
+                            writeln!(out, "conn {id}.cli KIND {} {} {} {} IMPL {obs} ## CLI=compile", if dual { 2 } else { 1 },
+                                     hex(&g.right), hex(&g.left), hex(&g.cost_raw)).unwrap();
                         }
-                        writeln!(out, "conn {id}.cli KIND {} {} {} {} IMPL {obs} ## CLI=compile", if dual { 2 } else { 1 },
-                                 hex(&g.right), hex(&g.left), hex(&g.cost_raw)).unwrap();
                     } else {
                         diffs.push("compile-bigram-unreadable".to_string());
                     }
